@@ -295,6 +295,42 @@ def violatesUnique (db : Db) : Bool :=
     | k :: ks => ks.contains k || dup ks
   dup keys
 
+/-! ### what the tamper theorem quantifies over -/
+
+/-- Replacement values covered for cell `c` of the row written for `rec` under profile key `key`: ANY value — non-authentic
+    bytes of any length, any ciphertext of any row, column or profile — except
+    * `value`: a different value encrypted under the same key for the same (category, name): only a record of the other
+      `kind` with the same category and name has one (the value key does not cover the kind);
+    * tag columns: a tag ciphertext of the same profile and the same column (tag ciphertexts are deterministic and not
+      bound to their item: the re-association of tag rows that the property excludes). -/
+def Admissible (key : Nat) (rec : RecSpec) (c : Col) (x : Ct) : Prop :=
+  match c with
+  | .category => True
+  | .name => True
+  | .value => ∀ v, x = .valid key .value rec.cat rec.name v → v = rec.value
+  | .tagName _ => ∀ v, x ≠ .valid key .tagName [] [] v
+  | .tagValue _ => ∀ v, x ≠ .valid key .tagValue [] [] v
+
+/-- the store as written, or with ONE cell replaced: a cell of an item row (admissible value), or a `profile_key`
+    (by anything at all) -/
+inductive Tampered (sk : Nat) (ps : List ProfSpec) : Db → Prop
+  | intact : Tampered sk ps (store sk ps)
+  | item (i : Nat) (c : Col) (x : Ct) (q : Nat) (rec : RecSpec)
+      (hrow : (store sk ps).items[i]? = some (encRow (q + 1) (q + 1) rec)) (hx : Admissible (q + 1) rec c x) :
+      Tampered sk ps (tamperItem (store sk ps) i c x)
+  | profile (i : Nat) (w : Wrapped) : Tampered sk ps (tamperProfile (store sk ps) i w)
+
+/-- the records written into the profile(s) named `profile` -/
+def Written (ps : List ProfSpec) (profile : String) (e : Entry) : Prop :=
+  ∃ p ∈ ps, p.name = profile ∧ e ∈ p.recs.map RecSpec.entry
+
+/-- an answer carries written content only -/
+def AnswerSafe (ps : List ProfSpec) (profile : String) : Answer → Prop
+  | .entry none => True
+  | .entry (some e) => Written ps profile e
+  | .entries es => ∀ e ∈ es, Written ps profile e
+  | .count _ => True
+
 /-! ### opening with a given method and pass key (`open_db`, store provisioned with a raw key) -/
 
 inductive Method | raw | kdf | unprotected deriving DecidableEq, Repr
